@@ -434,6 +434,10 @@ def run(ctx):
     importlib.import_module("rules.c06").dual_map_pairing(db, rep, "D9-OS-RESOURCES")
     # D10: the destructor of the code object releases what the object owns on every path on which it owns it (shared with C09)
     importlib.import_module("rules.c09").d8_owned_fields_released(db, rep, "D10-OWNED-RELEASED")
+    # D11: "no use-after-free, no double free": the chunk list (merge / free of chunk structs) is only touched with the global
+    # mutex held - a chunk that shows up as free before the freeing thread holds the lock can be handed out and merged away
+    # (rule shared with C08 D1)
+    importlib.import_module("rules.c08").d1(db, rep, "D11-ALLOCATOR-LOCKED")
 
     if n6 < 6:
         raise AnalysisBroken("only %d free-then-null instances found" % n6)
